@@ -65,7 +65,8 @@ def generate(R, tier):
         gens.append({"rule": R.choice(["random", "random", "top", "top_real", "worst", "single"]),
                      "nsel": R.randint(1, 6), "prot": R.choice(sorted(PROT)), "nself": R.choice([0, 0, 1, 2]),
                      "size": R.choice(SIZES) if R.random() < 0.6 else R.randint(1, 12),
-                     "policy": R.choice(["replace", "replace", "merge", "subsample", "inplace-cull", "inplace-merge"]), "s": R.randrange(1 << 30)})
+                     "policy": R.choice(["replace", "replace", "merge", "subsample", "inplace-cull", "inplace-merge"]), "s": R.randrange(1 << 30),
+                     "xcfg": R.random() < 0.6, "xcfg_n": R.choice([0, 0, 1, 2, 3, 5, 7, 11])})
     mode = R.choice(["pass", "pass", "pass", "low", "high"])
     if R.random() < 0.004:
         # a very large family next to single individuals: alleles carried by one individual in > 100 000
@@ -173,6 +174,11 @@ def execute(sc):
         except Exception as e:
             V.append(viol("limits-computable", C + ".usl/lsl/gebv", "raises:%s" % type(e).__name__, "generation %d (n=%d): %s: %s" % (ix, n, type(e).__name__, e), step=ix))
             return None
+        # a value that is not a number brackets nothing and is bracketed by nothing
+        for nm_, arr_ in (("usl", usl), ("lsl", lsl), ("usl(unscale=True)", usl_t), ("lsl(unscale=True)", lsl_t), ("gebv", gebv)):
+            if not numpy.all(numpy.isfinite(arr_)):
+                V.append(viol("limits-computable", C + ".usl/lsl/gebv", "non-finite:" + nm_.split("(")[0], "generation %d (n=%d): %s contains non-finite values %s" % (ix, n, nm_, numpy.asarray(arr_).ravel()[:6].tolist()), step=ix))
+                return None
         # gebv() reports dosage @ u_a plus the intercept (mean of the fixed effects): like is compared with like,
         # unscale=True limits against gebv().unscale(), unscale=False limits against the same values minus the intercept
         gref_t = gref + loc[None, :]
@@ -206,7 +212,7 @@ def execute(sc):
             um = DenseGenotypeMatrix(mat.sum(0, dtype="int8"), taxa=pop.taxa, taxa_grp=pop.taxa_grp, vrnt_chrgrp=pop.vrnt_chrgrp, vrnt_phypos=pop.vrnt_phypos, ploidy=2)
             usl_u, lsl_u = numpy.array(gm.usl(um), dtype=float), numpy.array(gm.lsl(um), dtype=float)
             usl_a = numpy.array(gm.usl(mat.sum(0).astype(float)), dtype=float)
-            if numpy.any(usl_u != usl) or numpy.any(lsl_u != lsl) or numpy.any(numpy.abs(usl_a - usl) > tolb):
+            if numpy.any(usl_u != usl) or numpy.any(lsl_u != lsl) or numpy.any(~(numpy.abs(usl_a - usl) <= tolb)):
                 V.append(viol("limits-independent-of-input-form", C + ".usl/lsl", "phased-vs-unphased", "generation %d (n=%d): phased %s/%s, unphased %s/%s, dosage array usl %s" %
                               (ix, n, usl.tolist(), lsl.tolist(), usl_u.tolist(), lsl_u.tolist(), usl_a.tolist()), step=ix))
                 return None
@@ -225,7 +231,7 @@ def execute(sc):
                 us, ls = numpy.array(gm.usl(s4), dtype=float), numpy.array(gm.lsl(s4), dtype=float)
                 g4 = d4.astype(float) @ u
                 tol4 = 2 * tolb
-                if numpy.any(g4.max(0) > u4 + tol4) or numpy.any(g4.min(0) < l4 - tol4) or numpy.any(numpy.abs(us - u4) > tol4) or numpy.any(numpy.abs(ls - l4) > tol4):
+                if numpy.any(~(g4.max(0) <= u4 + tol4)) or numpy.any(~(g4.min(0) >= l4 - tol4)) or numpy.any(~(numpy.abs(us - u4) <= tol4)) or numpy.any(~(numpy.abs(ls - l4) <= tol4)):
                     V.append(viol("limits-bracket-population", C + ".usl/lsl", "tetraploid-unphased", "generation %d: tetraploid view of %d taxa: values [%s, %s], limits [%s, %s], after select_taxa [%s, %s]" %
                                   (ix, half, g4.min(0).tolist(), g4.max(0).tolist(), l4.tolist(), u4.tolist(), ls.tolist(), us.tolist()), step=ix))
                     return None
@@ -275,6 +281,7 @@ def execute(sc):
         if n == 0:
             break
         cls, npar = PROT[st["prot"]]
+        cfg_obj = None
         # ---- selection
         nsel = max(1, min(st["nsel"], n))
         gv = numpy.asarray(pop.mat).astype(float).sum(0) @ u[:, 0]
@@ -298,6 +305,7 @@ def execute(sc):
                         ntrait=u.shape[1], unscale=True, ncross=k, nparent=2, nmating=1, nprogeny=1, nobj=1, obj_wt=numpy.array([1.0]),
                         obj_trans=lambda x, latent, **kw: latent[:1], rng=g, soalgo=SortingSubsetOptimizationAlgorithm())
                     cfg = prot.select(pgmat=pop, gmat=pop, ptdf=None, bvmat=None, gpmod=gm, t_cur=ix, t_max=9)
+                    cfg_obj = cfg
                     sel = [int(v) for v in numpy.asarray(cfg.xconfig_decn).tolist()]
                     faults["selection_through_real_protocol"] = faults.get("selection_through_real_protocol", 0) + 1
                 except Exception as e:
@@ -324,6 +332,25 @@ def execute(sc):
         target = st["size"]
         ncross = max(1, target)
         xc = numpy.array([[sel[R.randrange(len(sel))] for _ in range(npar)] for _ in range(ncross)], dtype=int)
+        policy = st["policy"]
+        if cfg_obj is not None and npar == 2 and st.get("xcfg") and policy != "inplace-cull":
+            # the selected parents are a population of their own: its limits are recorded, and the crosses are the ones
+            # the protocol's own configuration samples; the progeny alone form the next generation
+            try:
+                sub = pop.select_taxa(numpy.array(sorted(set(sel)), dtype=int))
+                if st.get("xcfg_n"):
+                    # the same chosen parents, another number of crosses (slots need not be a multiple of the parents chosen)
+                    from pybrops.breed.prot.sel.cfg.SubsetSelectionConfiguration import SubsetSelectionConfiguration
+                    cfg_obj = SubsetSelectionConfiguration(ncross=int(st["xcfg_n"]), nparent=2, nmating=1, nprogeny=1, pgmat=pop,
+                                                           xconfig_decn=numpy.asarray(cfg_obj.xconfig_decn), rng=g)
+                xc = numpy.asarray(cfg_obj.sample_xconfig(return_xconfig=True), dtype=int)
+            except Exception as e:
+                V.append(viol("selection-protocol-completes", "SubsetSelectionConfiguration.sample_xconfig", "raises:%s" % type(e).__name__, "generation %d: %s" % (ix, e), step=ix))
+                break
+            if observe(sub, ix) is None:
+                break
+            policy = "replace"
+            faults["crosses_sampled_by_the_protocol"] = faults.get("crosses_sampled_by_the_protocol", 0) + 1
         mp = prots.get(st["prot"])
         if mp is None:
             mp = prots[st["prot"]] = cls(progeny_counter=0, family_counter=0, rng=g)
@@ -342,15 +369,15 @@ def execute(sc):
         kinds.append("%s/%s/%s/%s" % (rule, st["prot"], st["policy"], "R" if target in (49, 98, 103, 107) else ("L" if target > 12 else "s")))
         # ---- replacement policy
         try:
-            if st["policy"] == "inplace-merge" and n + prog.ntaxa <= 130:
+            if policy == "inplace-merge" and n + prog.ntaxa <= 130:
                 # progeny join their parents in the same population object
                 pop.append_taxa(numpy.asarray(prog.mat), taxa=prog.taxa, taxa_grp=prog.taxa_grp)
                 newpop = pop
                 faults["population_object_modified_in_place"] = faults.get("population_object_modified_in_place", 0) + 1
-            elif st["policy"] == "merge" and n + prog.ntaxa <= 130:
+            elif policy == "merge" and n + prog.ntaxa <= 130:
                 newpop = DensePhasedGenotypeMatrix.concat_taxa([pop, prog])
                 newpop.vrnt_xoprob = pop.vrnt_xoprob if newpop.vrnt_xoprob is None else newpop.vrnt_xoprob
-            elif st["policy"] == "subsample" and prog.ntaxa > 1:
+            elif policy == "subsample" and prog.ntaxa > 1:
                 keep = sorted(R.sample(range(prog.ntaxa), max(1, prog.ntaxa - R.randint(0, min(3, prog.ntaxa - 1)))))
                 newpop = prog.select_taxa(keep)
             else:
@@ -360,7 +387,7 @@ def execute(sc):
             if not newpop.is_grouped_vrnt():
                 newpop.group_vrnt()
         except Exception as e:
-            V.append(viol("population-update-completes", "DensePhasedGenotypeMatrix.%s" % ("concat_taxa" if st["policy"] == "merge" else "select_taxa"), "raises:%s" % type(e).__name__,
+            V.append(viol("population-update-completes", "DensePhasedGenotypeMatrix.%s" % ("concat_taxa" if policy == "merge" else "select_taxa"), "raises:%s" % type(e).__name__,
                           "generation %d: %s: %s" % (ix, type(e).__name__, e), step=ix))
             break
         pop = newpop
